@@ -7,6 +7,9 @@ import (
 	"math"
 	"math/rand"
 	"os"
+	"strconv"
+
+	"github.com/markusressel/fan2go/internal/util"
 
 	"github.com/markusressel/fan2go/internal/controller"
 )
@@ -24,6 +27,9 @@ type c10Case struct {
 	Sc         *Scenario `json:"scenario"`
 	PollsPerCy int       `json:"pollsPerCycle"` // >0: polls before each cycle; <0: cycles per poll
 	Curve      int       `json:"curve"`
+	// CoarseReadback N > 1: the device keeps (and reports) the written duty rounded down to a multiple of N while
+	// fan2go's PWM map is the identity (a map measured on other hardware / an inexact configured map)
+	CoarseReadback int `json:"coarseReadback,omitempty"`
 }
 
 func c10Bound(n int) int { return 25*n + 25 }
@@ -95,6 +101,9 @@ func genC10(r *rand.Rand, kind string) *c10Case {
 	sc.InitPwm = mn
 	sc.InitMode = 2
 	c := &c10Case{Sc: sc, PollsPerCy: pick(r, 1, 1, 5, -5), Curve: 0}
+	if (kind == "hwmon" || kind == "file") && sc.Map.Kind == "identity" && r.Intn(4) == 0 {
+		c.CoarseReadback = pick(r, 2, 4, 8, 10)
+	}
 	if kind != "file" && kind != "cmd" && r.Intn(3) == 0 && theta <= 255 {
 		// a curve value that still lands below the threshold
 		c.Curve = r.Intn(40)
@@ -120,6 +129,15 @@ func checkC10(ctx *Ctx, c *c10Case) {
 	n := sc.Window
 	B := c10Bound(n)
 	class := sc.Fan.Label()
+	if c.CoarseReadback > 1 && w.VFan != nil {
+		class += "-coarse-readback"
+		step, path := c.CoarseReadback, w.VFan.PwmPath
+		driver.Hook = func(ev *util.VerifEvent) {
+			if ev.Op == "w" && ev.Path == path && ev.Err == "" && ev.Action == "" {
+				driver.Mem[path] = strconv.Itoa(ev.Val / step * step)
+			}
+		}
+	}
 	wclass := "window=1"
 	if n >= 2 {
 		wclass = "window>=2"
